@@ -164,6 +164,11 @@ def circ_specs(tier):
         ('ci1', [(0, 20)], [1]),
         ('circ3ri', [(0, 40), (40, 20), (60, 40)], [2]),
         ('circ2ri', [(0, 40), (40, 20)], [2]),
+        # fragments listed in descending gene coordinates (negative OFFSETs), as parseCIRCexplorer writes them for
+        # multi-exon circRNAs of minus-strand genes
+        ('circ2desc', [(60, 40), (0, 40)], []),
+        ('circ3desc', [(120, 61), (60, 40), (0, 40)], []),
+        ('circ3ridesc', [(60, 40), (40, 20), (0, 40)], [2]),
     ]
     if th:
         shapes += [('ci2', [(0, 20), (60, 20)], [1, 2]), ('circ3ri2', [(0, 5), (5, 1), (6, 7)], [1, 3])]
